@@ -58,6 +58,12 @@ pub struct ChainCfg {
     /// the head caller abandons after k polls (None: awaits)
     pub abandon_after: Option<u32>,
     pub alphabet: u32,
+    /// every client handle is owned by the future that uses it (the head caller; each hop's
+    /// handler for its nested call) and nothing else keeps it alive: abandoning a call then
+    /// also drops the last handle of that client, so its dispatch must transmit the
+    /// cancellation while it shuts down
+    #[serde(default)]
+    pub own_clients: bool,
 }
 
 // ---------------------------------------------------------------------------------------------
@@ -439,12 +445,20 @@ impl World {
         }
         for (i, st) in servers.into_iter().enumerate() {
             let next: Option<client::Channel<u32, u32>> = clients.get(i + 1).cloned();
+            // own_clients: the first handler invocation takes the only handle
+            let next_once: Rc<RefCell<Option<client::Channel<u32, u32>>>> = Rc::new(RefCell::new(if cfg.own_clients { next.clone() } else { None }));
+            let next = if cfg.own_clients { None } else { next };
+            let has_next = i + 1 < d;
             let sh2 = sh.clone();
             let last = i + 1 == d;
             let auto = cfg.last_finishes;
             let serve = tarpc::server::serve(move |ctx: context::Context, req: u32| {
                 let sh3 = sh2.clone();
-                let next = next.clone();
+                let next = match next.clone() {
+                    Some(c) => Some(c),
+                    None if has_next => next_once.borrow_mut().take(),
+                    None => None,
+                };
                 async move {
                     let mut guard = DropLog { hop: i, sh: sh3.clone(), done: false };
                     log_ctx(&sh3, "hstart", i, &ctx);
@@ -470,7 +484,7 @@ impl World {
             tasks.push(mk_task(Task::Stream(i), None, Some(stream)));
         }
         Rc::new(World {
-            keepalive: RefCell::new(clients),
+            keepalive: RefCell::new(if cfg.own_clients { Vec::new() } else { clients }),
             cfg: cfg.clone(),
             log,
             sh,
